@@ -89,6 +89,7 @@ def thorough(ctx, prop, repo, fl, g, extra):
         else:
             from .rules import c17
             mine = {(s["body"].file_short, s["line"]) for s in c17.sites(ctx.bin)}
+            bin_files = {b.file_short for b in ctx.bin.bodies}
             files_tests = {}
             n = 0
             for (fn, line, lint) in sorted(cs):
@@ -98,6 +99,8 @@ def thorough(ctx, prop, repo, fl, g, extra):
                 # test modules are not part of the shipped tool
                 if _in_test_module(repo, fn, line):
                     continue
+                if fn not in bin_files:
+                    continue  # e.g. src/lib.rs: the fuzzing facade, not part of the shipped binary
                 ctx.bad("C17-R1/clippy", "clippy-only|%s|%s" % (fn, lint),
                         "clippy::%s reports a potential panic site that the audit did not enumerate" % lint, "%s:%s" % (fn, line))
             ctx.ok("C17-R1/clippy", "clippy restriction lints: %d sites, all present in the audit's own enumeration" % n, "cargo +nightly clippy")
